@@ -352,9 +352,23 @@ def run(chk, facts, tier, only=None):
             raise AnchorMissing("validate_type: Service arm not found")
         r = srows[0]
         afs = [n for n in walk(r["body"]) if n.get("k") in ("call", "mcall") and (callee(n) or "").endswith("TypeEnv::as_func")]
-        in_loop = [n for n in afs if any(p.get("k") == "match" and p.get("src") == "ForLoopDesugar" for p in t.ancestors(n)) and enforced(t, n)[0]]
+
+        def unconditional_in_loop(n):
+            """n sits in the body of the for loop over the methods and no if / match arm lies between the loop body and n
+            (the `?` desugaring, where n is the scrutinee, is not a condition)"""
+            for p in t.ancestors(n):
+                if p.get("k") == "match" and p.get("src") == "ForLoopDesugar":
+                    return True
+                if p.get("k") == "if" and not any(x is n for x in walk(p["c"])):
+                    return False
+                if p.get("k") == "match" and not any(x is n for x in walk(p["scrut"])):
+                    return False
+                if p.get("k") in ("closure",):
+                    return False
+            return False
+        in_loop = [n for n in afs if unconditional_in_loop(n) and enforced(t, n)[0]]
         chk.expect(bool(in_loop), "meth-is-func:validate_type",
-                   "validate_type: the Service arm must call env.as_func(ty)? for every method (inside the loop over the methods)",
+                   "validate_type: the Service arm must call env.as_func(ty)? for every method (unconditionally inside the loop over the methods)",
                    where=f"{t.h['span']['file']}:{r['ln']}", ok_detail="for (_, ty) in methods { env.as_func(ty)?; … }")
         # (f) the actor is a service
         t = tree(cp, r"^candid_parser::typing::check_actor$")
@@ -452,6 +466,22 @@ def run(chk, facts, tier, only=None):
                            f"(sets available: {sets}); on a recursive type definition the walk does not terminate",
                            where=where(t, bad[0]) if bad else None, ok_detail=f"{len(rec)} recursive call(s) guarded by an insertion into {sets}")
         chk.floor("recursive walkers over a checked environment with a Var arm", found, 5)
+        # vacuity is a property of each definition: the chain followed from one name must be judged against the names met on *that*
+        # chain only, so the visited set handed to has_cycle is created inside the loop over the definitions
+        t = tree(cp, r"^candid_parser::typing::check_cycle$")
+        hc = [n for n in walk(t.h["body"]) if n.get("k") == "call" and (callee(n) or "").endswith("check_cycle::has_cycle")]
+        if not hc:
+            raise AnchorMissing("check_cycle no longer calls has_cycle")
+        for c in hc:
+            loops = [p for p in t.ancestors(c) if p.get("k") == "match" and p.get("src") == "ForLoopDesugar"]
+            seen = U.strip_to_local(c["args"][0]) if c.get("args") else None
+            lets = [n for n in walk(t.h["body"]) if n.get("k") == "slet" and (n.get("pat") or {}).get("k") == "bind" and n["pat"]["n"] == seen]
+            fresh = bool(loops) and bool(lets) and all(any(p is loops[0] for p in t.ancestors(n)) for n in lets) and \
+                all((callee(unblock(n["init"])) or "").endswith("::new") for n in lets if n.get("init"))
+            chk.expect(fresh, "visited:check_cycle:fresh-per-definition",
+                       "check_cycle: the visited set passed to has_cycle must be a new, empty set for every definition (created inside the loop over "
+                       "env.0); a set shared between definitions makes the verdict for one name depend on the chains followed for earlier names",
+                       where=where(t, c), ok_detail=f"`{seen}` = BTreeSet::new() inside the loop over the definitions")
 
     # ------------------------------------------------------------------------------------------------ R3
     def r3():
